@@ -215,7 +215,8 @@ func (p *Parser) number() (Number, error) {
 // More checks if the parser has more tokens to read.
 func (p *Parser) More() bool {
 	if _, err := p.next(); err != nil {
-		return false
+		// An unterminated token or comment isn't the end of the text. There's more for Term() to report.
+		return p.lexer.partial
 	}
 	p.backup()
 	return true
